@@ -211,3 +211,35 @@ UPLOAD_LINK = Contract(
     exc_ensures=[("refusal_uploads_nothing", f"implies(exc == 'ValueError', {same('upload_local')})")],
     frame=[], props=["C14"],
 )
+
+
+# ---------------------------------------------------------------- dispatch of a pool path to the remote / link / local operation
+def dispatch(name, has_cache):
+    args = "cache_path, " if has_cache else ""
+    ps = {"cls": __import__("pyvc.kinds", fromlist=["VClass"]).VClass("TransferOps")}
+    if has_cache:
+        ps["cache_path"] = STR
+    ps.update({"pool_path": STR, "params": Ref("Params")})
+    ops = [f"{name}_remote", f"{name}_link", f"{name}_local"]
+    ov = {f"TransferOps.{o}": seam_handler(o, BOOL if name == "compare" else (Seq(STR) if name == "list" else None)) for o in ops}
+    HOSTS, PATH = "pool_path.split(':')[0]", "pool_path.split(':')[1]"
+    pidx = 2 if has_cache else 1      # arg0 is the class the operation is called on
+
+    def only(op):
+        return f"{once(op)} and " + " and ".join(same(o) for o in ops if o != op)
+    target = "list_paths" if name == "list" else name
+    return Contract(
+        target=f"{POOL}::TransferOps.{target}", name=f"TransferOps.{target}[dispatch]", params=ps,
+        requires=["len(pool_path.split(':')) == 2"], overrides=ov,
+        ensures=[
+            ("remote_iff_host_given", f"implies({HOSTS} != '', {only(ops[0])} and ghost('{ops[0]}.arg{pidx}', STR) == pool_path)"),
+            ("link_iff_marked", f"implies({HOSTS} == '' and ';' in {PATH}, {only(ops[1])})"),
+            ("local_otherwise", f"implies({HOSTS} == '' and ';' not in {PATH}, {only(ops[2])} and "
+                                f"ghost('{ops[2]}.arg{pidx}', STR) == {PATH})"),
+        ],
+        frame=[], props=["C14", "C13"],
+        assumes=["the concrete operations are seams here (their own contracts: lock discipline above)"])
+
+
+DISPATCH = [dispatch("download", True), dispatch("upload", True), dispatch("delete", False), dispatch("compare", True),
+            dispatch("list", False)]
